@@ -271,15 +271,9 @@ class World:
         g["String"] = HString
         g["ParenString"] = HParenString
         srd_key = self.classes.get("StringReplaceDict")
-        world = self
-
-        class SRD(dict):
-            def __call__(self_, line):
-                f = m.method(srd_key, "__call__")
-                if f is None:
-                    raise PE.Unsupported("StringReplaceDict.__call__ vanished")
-                return world.ev.run_function(f.node, [self_, line])
-        g["StringReplaceDict"] = SRD
+        if srd_key is not None:
+            # a dict in every host operation; __call__ and whatever else the class defines is interpreted from its source
+            g["StringReplaceDict"] = PE.host_subclass(self.ev, m.classdef(srd_key), dict, "SRD")
         noop = lambda *a, **k: None
 
         def logger_for(level):
